@@ -103,7 +103,12 @@ def h_rendezvous(ctx, plan):
       setattr(Sink, '_handle_%s_Ping' % comp, handler)
       s = Sink()
       sinks.append((s, comp, hits))
-      core.listen_to_dependencies(s)
+      # the dependency is derived from the handler name, or also given explicitly: as a bare string, a list, a set
+      form = (i + len(sinks)) % 4
+      if form == 0: core.listen_to_dependencies(s)
+      elif form == 1: core.listen_to_dependencies(s, comp)
+      elif form == 2: core.listen_to_dependencies(s, [comp])
+      else: core.listen_to_dependencies(s, set([comp]))
     # ---- reference: after every operation, exactly the waiters whose dependencies are registered have fired, once each
     have = set(registry)
     ids = [w for w, _ in fired]
